@@ -632,7 +632,10 @@ def minimise(prop, trace, budget_s=60.0):
     def fails(steps):
         t = dict(best)
         t["steps"] = steps
-        r = replay(prop, t)
+        try:
+            r = replay(prop, t)
+        except HarnessError:
+            return None  # a shrunk candidate that leaves the generator's guards (not a reproduction)
         return r if same_class(r.violation, target) else None
 
     r0 = fails(best["steps"])
